@@ -300,5 +300,5 @@ func genG17(repo string, w *Out) error {
 	}
 	// which side is consulted first
 	w.DefBool("exclude_checked_first", matchBody == joinedMatch || matchBody == eachMatch)
-	return nil
+	return genG17Wiring(repo, w)
 }
